@@ -103,6 +103,10 @@ def analyze_accumulator(in_model, x, verbose=False):
         isinstance(layer, QDense)):
       weights = layer.get_weights()
       k = weights[0]
+      if isinstance(layer, QDepthwiseConv2D):
+        # depthwise kernel is (rows, cols, channels, multiplier): one output
+        # channel per (channel, multiplier) pair
+        k = np.reshape(k, k.shape[:-2] + (1, k.shape[-2] * k.shape[-1]))
       if layer.use_bias:
         b = weights[1]
       else:
@@ -110,7 +114,7 @@ def analyze_accumulator(in_model, x, verbose=False):
 
       all_bits = []
       nbits = []
-      for i in range(k.shape[1]):
+      for i in range(k.shape[-1]):
         # compute sum of positive weights
         npp = np.sum(k[..., i] * (k[..., i] > 0)) + (b[i] > 0) * b[i]
 
